@@ -15,6 +15,8 @@
 (*   chained           : lhs of claim k+1 # rhs of claim k (or first lhs   *)
 (*                       # initial configuration)                          *)
 (*   varmap            : Kore variables -> metavariables not injective     *)
+(*   conv-refused      : converting a ground substitution for all variables *)
+(*                       of a rule (or the substituted rule) raised         *)
 (*   conv-commute      : instantiate(convert(rule), convert(sigma)) #      *)
 (*                       convert(rule sigma)                               *)
 (*   hints-verdict / hints-claims : ExecutionProofExp.from_proof_hints on  *)
@@ -74,6 +76,7 @@ CheckCase(i) ==
   LET c == Cases[i] IN
   IF c.out # "ok" THEN "definition-refused"
   ELSE IF \E k \in 1..Len(c.convs) : ~Injective(c.convs[k].varmap) THEN "varmap"
+  ELSE IF \E k \in 1..Len(c.convs) : c.convs[k].error # "" THEN "conv-refused"      \* a ground substitution for all variables of the rule was refused
   ELSE IF \E k \in 1..Len(c.convs) : c.convs[k].has /\ ~ConvCommutes(c.convs[k]) THEN "conv-commute"
   ELSE LET w == Walk(c, 1, Expand(c.init), 0, <<>>)
            allok == \A k \in 1..Len(c.steps) : c.steps[k].out = "ok" IN
